@@ -115,7 +115,7 @@ def check(case):
             kw["n"] = n
         res = must(lib(net.sample, **kw), "DRFNet.sample(%r)" % (kw,))
         cctx = "%s call#%d %r" % (ctx, ci, kw)
-        if not isinstance(res, list) or len(res) != e:
+        if not isinstance(res, (list, tuple)) or len(res) != e:
             raise Violation("wrong_env_count", "sample returned %r environments, expected %d; %s" % (len(res) if hasattr(res, "__len__") else res, e, cctx))
         last_query = {}
         for entry in fk.LOG:
